@@ -19,6 +19,10 @@ package main
 //              obtain the same pointers; no duplicates; ids dense
 //   nameref    (S, deterministic schedule of the atomic steps of two decoders) a NameRef
 //              resolves to the decoder's own preceding NameDef
+//   interleave (T2) a schedule of the atomic steps of 2-5 LookupByValue threads replayed through the
+//              public API on one real context vs the model's runSched (types by id, every thread's
+//              result); (S) the type assembled step by step is what the context returns for the
+//              bytes; the same lookups by real goroutines give the model's results and type set
 
 import (
 	"bytes"
@@ -1091,7 +1095,9 @@ func runC05(c *Ctx) {
 		"LookupByValue of canonical, member-reversed, ref-expanded, long-length, trailing, truncated and bare-NameRef encodings, TranslateType between up to 3 contexts, " +
 		"LookupTypeValue, LookupTypeDef) on real zed.Context vs the Lean model; distinct by the sequence of op kinds. " +
 		"cmptypes: all pairs/triples of a curated+generated type universe. union: member sets of 2-20 types in two orders. " +
-		"translate/alias/concurrent: generated types of depth ≤ 4; distinct by structure.")
+		"translate/alias/concurrent: generated types of depth ≤ 4; distinct by structure. " +
+		"interleave: 2-5 LookupByValue threads (canonical, member-reversed, ref-expanded, long-length, trailing encodings of generated types; names collide across threads) " +
+		"under a random schedule of their atomic steps; distinct by bytes and schedule.")
 	if c.Replay != nil {
 		replayC05(c)
 		return
@@ -1127,6 +1133,9 @@ func runC05(c *Ctx) {
 	}
 	if c.Want("nameref") {
 		runNameRef(c)
+	}
+	if c.Want("interleave") {
+		runInterleave(c)
 	}
 }
 
@@ -1170,6 +1179,8 @@ func replayC05(c *Ctx) {
 		checkConcurrent(c, r.Specs, r.Perms)
 	case "nameref":
 		runNameRef(c)
+	case "interleave":
+		replayInterleave(c)
 	case "cmptypes":
 		runCmpTypes(c)
 	default:
